@@ -9,6 +9,7 @@ import (
 	"strings"
 
 	"github.com/XiXi-2024/xixi-kv/verifrt/iorec"
+	"github.com/XiXi-2024/xixi-kv/verifrt/sched"
 )
 
 // C07 — a crash during merge or during merge adoption never loses or resurrects data (nested crashes).
@@ -204,11 +205,145 @@ func runC07(cfg Cfg, keys []string, ops []Op, res *TaskResult) *Violation {
 
 var c07Nesting = 2
 
+// ---- graceful shutdown while Merge is running ("an unfinished merge is ignored") ----------------------------
+// Merge holds no lock while it scans; Close may run in the middle of it. Whatever the interleaving, the merge
+// either finished (and is adopted once) or must be ignored: the next Open exposes the acknowledged mapping.
+
+func c07CloseDuringMerge(cfg Cfg, init []Op, pb int) func(res *TaskResult) {
+	return func(res *TaskResult) {
+		outcomes := map[string]bool{}
+		var want map[string]string
+		run := func(prefix []int8) *ExecResult {
+			beginExecution()
+			w := NewWorld(cfg, keysAB)
+			defer w.Destroy()
+			ex := &ExecResult{}
+			if err := w.Open(); err != nil {
+				ex.OpenErr = panicDetail(err)
+				return ex
+			}
+			for _, op := range init {
+				if ar := w.Apply(op); ar.Err != nil || w.Dead {
+					ex.OpenErr = "init failed"
+					return ex
+				}
+			}
+			want = copyModel(w.Model)
+			db := w.DB
+			var mergeErr, closeErr string
+			// Close is only issued once Merge has really begun (its first I/O call, the rotation, has happened):
+			// Merge on an already closed handle is API misuse, not the situation the property speaks about
+			mergeStarted, skipped := false, false
+			iorec.After = func(ev *iorec.Event) { mergeStarted = true }
+			ex.Sched = sched.Run(prefix, func() { mergeErr = errClass(db.Merge()) }, func() {
+				for i := 0; i < 4 && !mergeStarted; i++ {
+					sched.Yield()
+				}
+				if !mergeStarted {
+					skipped = true
+					return
+				}
+				closeErr = errClass(db.Close())
+			})
+			iorec.After = nil
+			sched.SetMode(sched.ModeSeq)
+			if skipped {
+				ex.OpenErr = "skipped"
+				return ex
+			}
+			ex.Calls = []CallRec{{Thread: 0, Call: Call{K: "merge"}, Err: mergeErr}, {Thread: 1, Call: Call{K: "close"}, Err: closeErr}}
+			if ex.Sched.Abort != sched.AbortNone {
+				w.Dead = true
+				return ex
+			}
+			for _, p := range ex.Sched.Panics {
+				if p != "" {
+					w.Dead = true
+					return ex
+				}
+			}
+			w.DB = nil
+			for k := 0; k < 2; k++ {
+				if err := w.Open(); err != nil {
+					ex.OpenErr = fmt.Sprintf("Open #%d after Merge || Close: %s", k+1, panicDetail(err))
+					return ex
+				}
+				d := w.DumpDB()
+				if k == 0 {
+					ex.Restart = d
+				} else {
+					ex.Restart2 = d
+				}
+				if err := w.Close(); err != nil {
+					ex.OpenErr = "Close: " + panicDetail(err)
+					return ex
+				}
+			}
+			return ex
+		}
+		sc := Scenario{Cfg: cfg, Init: init, Threads: [][]Call{{{K: "merge"}}, {{K: "close"}}}}
+		n, complete := exploreSchedules(run, pb, 200000, func(ex *ExecResult, prefix []int8) bool {
+			res.Execs++
+			if ex.Sched == nil {
+				return true
+			}
+			res.Transitions += ex.Sched.Points
+			if ex.OpenErr == "skipped" {
+				res.count("close_before_merge_started_not_judged", 1)
+				return true
+			}
+			res.Evals++
+			bad := ""
+			switch {
+			case ex.Sched.Abort == sched.AbortDiv:
+				res.Err = "replay divergence in Merge || Close"
+				return false
+			case ex.Sched.Abort != sched.AbortNone:
+				bad = "deadlock / livelock between Merge and Close"
+			case ex.OpenErr != "":
+				bad = ex.OpenErr
+			}
+			for i, p := range ex.Sched.Panics {
+				if p != "" && bad == "" {
+					bad = fmt.Sprintf("thread %d panicked: %s", i, firstLine(p))
+				}
+			}
+			if bad == "" {
+				for i, d := range []*Dump{ex.Restart, ex.Restart2} {
+					if d == nil || d.Err != "" || !sameMap(d.KV, want) || d.KeyNum != len(want) {
+						bad = fmt.Sprintf("Open #%d after Merge || Close (Merge returned %s, Close returned %s) exposes %s, acknowledged mapping %s", i+1, ex.Calls[0].Err, ex.Calls[1].Err, d, modelString(want))
+						break
+					}
+				}
+			}
+			if bad != "" {
+				res.Violations = append(res.Violations, Violation{Prop: "C07", Clause: "close-during-merge", Sig: "close-during-merge",
+					Detail: fmt.Sprintf("scenario %s\nschedule: %s\n%s", sc, describeSchedule(ex), bad),
+					Replay: mustJSON(schedReplay{Engine: "sched-close", Prop: "C07", Scenario: sc, Schedule: append([]int8{}, ex.Sched.Choices...), Text: sc.String()})})
+				return false
+			}
+			outcomes[ex.Calls[0].Err+"/"+ex.Calls[1].Err] = true
+			return true
+		})
+		if !complete {
+			res.Partial = true
+		}
+		for o := range outcomes {
+			res.States = append(res.States, hash64(sc.String(), o))
+		}
+		if len(outcomes) > 1 {
+			res.Nontrivial++
+		}
+		res.count("max:schedules_per_scenario", int64(n))
+		res.Samples = append(res.Samples, fmt.Sprintf("%s: %d schedules, outcomes (Merge/Close) %v", sc, n, sortedKeys(outcomes)))
+	}
+}
+
 func init() {
 	register(&Check{
 		Prop:   "C07",
 		Engine: "crash",
-		Rule:   "every history within the bound, followed by Merge (both scan orders) and by Merge + adopting restart: a crash image after EVERY I/O event of Merge / of the adopting Open (plus, before each remove-all, every subset of the directory's entries already gone); each image is opened with the real Open and must expose exactly the acknowledged mapping; nested: the recovery Open is itself recorded and crashed after each of ITS events, down to the nesting depth; states = distinct crash images (all levels)",
+		Rule:   "every history within the bound, followed by Merge (both scan orders) and by Merge + adopting restart: a crash image after EVERY I/O event of Merge / of the adopting Open (plus, before each remove-all, every subset of the directory's entries already gone); each image is opened with the real Open and must expose exactly the acknowledged mapping; nested: the recovery Open is itself recorded and crashed after each of ITS events, down to the nesting depth; plus, under the controlled scheduler, Close racing a running Merge (all schedules up to the preemption bound): the next two Opens expose the acknowledged mapping. states = distinct crash images (all levels)",
 		Assumptions: []string{
 			"process death only (no tail cuts): file-system calls are atomic and durable in issue order",
 			"remove-all is additionally expanded into every subset of already removed entries (<= 6 entries) without changing what the real call does",
@@ -228,7 +363,17 @@ func init() {
 			for l := 1; l <= d; l++ {
 				levels = append(levels, seqLevel{Name: fmt.Sprintf("history-len%d-nest%d", l, c07Nesting), Cfgs: cfgs, Keys: keysAB, Alpha: c07Alphabet, Depth: l, Dev: b, Run: runC07, MaxViols: 1})
 			}
-			return seqTasks("C07", levels)
+			tasks := seqTasks("C07", levels)
+			pb := 3
+			if tier == "thorough" {
+				pb = -1
+			}
+			for _, c := range cfgs {
+				for name, init := range c08MergeInits {
+					tasks = append(tasks, Task{Level: "close-during-merge", Name: "close during merge " + c.String() + " " + name, Fn: c07CloseDuringMerge(c, init, pb)})
+				}
+			}
+			return tasks
 		},
 		Bounds: func(tier string) map[string]any {
 			if tier == "quick" {
